@@ -5,8 +5,13 @@ import WzVerif.Driver.PyPrelude
 namespace Wz.Driver.C14
 open Wz Wz.Proto Wz.Paths
 
-/-- `os.path.isfile` for the harness's tree: `files` are absolute and normalised, `cwd` absolute -/
-def isfileIn (cwd : Str) (files : List Str) (p : Str) : Bool := files.contains (normpath (join cwd [p]))
+/-- `os.path.isfile` for the harness's tree: `files` are absolute and normalised, `cwd` absolute.
+A path whose last component is empty, `.` or `..` (`f/`, `f/.`: what `safe_join(f, "")` /
+`safe_join(f, ".")` yield) never names a regular file - `stat` demands a directory there - although
+its lexical normalisation may (met with a directory export whose value is a regular file). -/
+def isfileIn (cwd : Str) (files : List Str) (p : Str) : Bool :=
+  let b := basename p
+  !(b == [] || b == dot || b == dotdot) && files.contains (normpath (join cwd [p]))
 
 /-- `<search> <kind> <a> <b>` groups: kind `v` = a str value `a` (file or directory, decided with the
 same file list as `__init__` would), kind `p` = package export (`a` = package directory, `b` =
@@ -67,6 +72,28 @@ def handle : Handler
               (sharedData isfile (fun name => !dis.contains name) (mkExports isfile specs) path))
           | _, _ => some badArgs
         | none => some badArgs
+      | _ => some badArgs
+    | _, _, _ => some badArgs
+  -- sdmlate <cwd> <path> <n> (<search> <kind> <a> <b>)*n <m> <disallowed>*m <k> <late file>*k <existing file>...
+  -- two file-system states: the `late` files exist at request time only (`os.path.isfile(value)` in
+  -- `__init__` sees the existing files, the loaders see existing ++ late)
+  | "sdmlate", cwd :: path :: n :: rest =>
+    match unhexStr cwd, unhexStr path, natArg n with
+    | some cwd, some path, some n =>
+      match parseExports n rest with
+      | some (specs, m :: rest') =>
+        match natArg m, (rest'.drop ((natArg m).getD 0)) with
+        | some m, k :: rest'' =>
+          match natArg k with
+          | some k =>
+            match (rest'.take m).mapM unhexStr, (rest''.take k).mapM unhexStr, (rest''.drop k).mapM unhexStr with
+            | some dis, some late, some files =>
+              some (outOpt hexStr
+                (sharedData (isfileIn cwd (late ++ files)) (fun name => !dis.contains name)
+                  (mkExports (isfileIn cwd files) specs) path))
+            | _, _, _ => some badArgs
+          | none => some badArgs
+        | _, _ => some badArgs
       | _ => some badArgs
     | _, _, _ => some badArgs
   | "secure", [s] =>
